@@ -176,6 +176,7 @@ class Attribution:
         self.undecided = []      # text
         self.fatal = []          # rustc / vir errors (tool could not process the text)
         self.all_obligations = []  # [(id, tags, kind)]
+        self.hints = []          # (function obligation id, message): failing unlabelled overlay asserts
 
 
 def obligations_of(meta):
@@ -202,6 +203,7 @@ def _base(uname):
 
 def attribute(meta, result):
     a = Attribution()
+    hints = []
     obs = obligations_of(meta)
     a.all_obligations = obs
     regions = [o for o in obs if o['kind'] == 'clause']
@@ -248,7 +250,19 @@ def attribute(meta, result):
         if hit is None:
             a.fatal.append('unattributed verification failure: ' + msg + _where(d))
             continue
+        if hit['kind'] == 'safety' and low.startswith('assertion failed'):
+            # an `assert` outside every labelled region: it is on a line of the overlay (no source token on it), i.e. an
+            # unlabelled proof HINT of mine, not an obligation of the code. Everything after it was proved assuming it,
+            # so a failing hint alone leaves the unit undecided; it is never a verdict by itself.
+            prim = [s_ for s_ in d['spans'] if s_['primary']] or d['spans']
+            if prim and str(prim[0]['line_start']) not in meta['linemap']:
+                hints.append((hit['id'], msg + _where(d)))
+                continue
         a.failed.setdefault(hit['id'], []).append(msg + _where(d))
+    a.hints = hints
+    if hints and not a.failed:
+        for (fid, m) in hints[:4]:
+            a.undecided.append('a proof hint of the overlay no longer holds in %s (proof incomplete, not a verdict): %s' % (fid, m))
     if result.get('vir_error'):
         a.fatal.append('verus reported a VIR error (unsupported construct?)')
     if result.get('errors') and not a.failed and not a.undecided and not a.fatal:
